@@ -3,6 +3,7 @@ package main
 // Evaluation of spec expressions (contract clauses) to SMT terms in a given state.
 
 import (
+	"math/big"
 	"fmt"
 	"go/token"
 	"go/types"
@@ -402,6 +403,14 @@ func (vc *VC) selectPathSpec(st *State, base Val, path []int) Val {
 func (c *specCtx) index(b, i Val) Val {
 	vc := c.vc
 	if b.Ty != nil {
+		if pt, ok := b.Ty.Underlying().(*types.Pointer); ok {
+			// p[i] with p a pointer to an array: index the pointee (read in the current state)
+			if _, isArr := pt.Elem().Underlying().(*types.Array); isArr {
+				es := vc.sortOf(pt.Elem())
+				arr := vc.heapGet(c.cur, "ptr:"+es, es)
+				return c.index(Val{S: fmt.Sprintf("(select %s %s)", arr, b.S), Ty: pt.Elem(), Sort: es}, i)
+			}
+		}
 		switch u := b.Ty.Underlying().(type) {
 		case *types.Slice:
 			arr, _, _ := vc.sliceParts(b)
@@ -791,6 +800,19 @@ func (c *specCtx) call(x *SCall) Val {
 		return c.heapEq(x, true)
 	case "sameExcept":
 		return c.sameExcept(x)
+	case "bit":
+		// bit(x, k): bit k (constant) of the non-negative integer x is set
+		if !argn(2) {
+			return c.boolV("true")
+		}
+		xv := c.eval(x.Args[0])
+		kv := c.eval(x.Args[1])
+		k, ok := smallConst(kv.S)
+		if !ok {
+			return c.fail("bit: second argument must be a small constant")
+		}
+		p := new(big.Int).Exp(big.NewInt(2), big.NewInt(k), nil)
+		return c.boolV(fmt.Sprintf("(= (mod (div %s %s) 2) 1)", xv.S, p.String()))
 	case "be64", "be32", "be16":
 		// big-endian value of the bytes arr[off .. off+n)
 		if !argn(2) {
